@@ -195,6 +195,18 @@ type StoreModel struct {
 	Tail, Head uint64 // 0,0 = empty
 }
 
+// sortedHeights: oracles walk maps in key order. Every store call of an oracle is a sequence of park
+// points (mechanically inserted ones included), so Go's random map order would make the log, the
+// decision hash and - with several goroutines enabled - the tape alignment differ between processes.
+func sortedHeights[V any](m map[uint64]V) []uint64 {
+	ks := make([]uint64, 0, len(m))
+	for k := range m {
+		ks = append(ks, k)
+	}
+	sort.Slice(ks, func(i, j int) bool { return ks[i] < ks[j] })
+	return ks
+}
+
 func newStoreModel() *StoreModel { return &StoreModel{Has: map[uint64]bool{}} }
 
 func (m *StoreModel) Clone() *StoreModel {
